@@ -86,6 +86,104 @@ def gen_stmt_kind(rng, pool_ints, pool_arrs):
     return rng.choice([["fail"], ["raise", "ValueError"], ["switch", "p2"]])
 
 
+# ------------------------------------------------------------------ small-scope enumeration
+
+def V(x):
+    return ["var", x]
+
+
+def I(n):
+    return ["int", n]
+
+
+def S(*xs):
+    return ["nary", "sum", list(xs)]
+
+
+SMALL_STMTS = [
+    ["assign", "x", None, I(1), []],
+    ["assign", "x", None, S(V("y"), I(1)), []],
+    ["assign", "y", None, V("x"), []],
+    ["assign", "j", None, I(1), []],
+    ["assign", "a", V("j"), V("x"), []],
+    ["assign", "x", None, ["bin", "sub", V("a"), V("j")], []],
+    ["assign", "z", None, S(V("z"), V("i")), [["i", I(0), V("<p>n")]]],
+    ["assign", "<p>n", None, I(2), []],
+    ["assign", "<state>u", None, V("x"), []],
+    ["assign", "x", None, V("<state>u"), []],
+    ["assign", "a", V("i"), S(["bin", "sub", V("a"), V("i")], I(1)), [["i", I(0), V("j")]]],
+    ["call", ["y"], "<func>f", [V("x")], []],
+    ["call", ["x", "j"], "<func>g2", [V("y")], [["k", V("j")]]],
+    ["yield", "y", "t1", V("<t>"), V("x")],
+    ["yield", "u", "final", I(0), V("<state>u")],
+    ["fail"],
+    ["switch", "p2"],
+]
+SMALL_CONDS = [["bin", "gt", V("x"), I(0)], V("j"), ["bin", "lt", V("<state>u"), V("y")]]
+SMALL_STORES = [
+    {"x": I(1), "y": I(-1), "z": I(0), "j": I(0), "a": ["arr", [3, 4]], "<state>u": I(2), "<p>n": I(1), "<t>": I(0)},
+    {"x": I(0), "y": I(2), "z": I(5), "j": I(1), "a": ["arr", [7, 8]], "<state>u": I(-2), "<p>n": I(2), "<t>": I(1)},
+]
+
+
+def enumerate_small(maxlen):
+    """every builder program of up to `maxlen` statements from SMALL_STMTS, each statement bare, inside an
+    if_ block, or inside the else_ of the previous statement's if_ block (two conditions), every initial
+    store of SMALL_STORES.  Deterministic: coverage of the small scope does not depend on the seed."""
+    wrappers = ["none", "if0", "if1", "if2", "else"]
+
+    def progs(n, prev_if):
+        if n == 0:
+            yield []
+            return
+        for k in SMALL_STMTS:
+            for w in wrappers:
+                if w == "else" and not prev_if:
+                    continue
+                if w == "none":
+                    head = [["stmt", k]]
+                elif w == "else":
+                    head = [["else"], ["stmt", k], ["endelse"]]
+                else:
+                    head = [["if", SMALL_CONDS[int(w[2])]], ["stmt", k], ["endif"]]
+                for rest in progs(n - 1, w.startswith("if")):
+                    yield head + rest
+    for n in range(1, maxlen + 1):
+        for p in progs(n, False):
+            yield p
+
+
+def small_scope(rep, maxlen, stride=1):
+    """runs the implementation-level oracle over the small scope; returns (n_programs, n_schedules, failing)"""
+    failing = {}
+    n = ns = 0
+    for pi, prog in enumerate(enumerate_small(maxlen)):
+        if pi % stride:
+            continue
+        prog = json.loads(json.dumps(prog))
+        for c in prog:      # what the real statements read back as (flattened right-hand sides)
+            if c[0] == "stmt":
+                c[1] = lang.kind_from_real(lang.kind_to_real(c[1]))
+        try:
+            names, cb = fresh_names(prog)
+        except Exception as ex:  # noqa: BLE001
+            failing.setdefault("builder_raises", (prog, SMALL_STORES[0], {"kind": "builder_raises", "exception": repr(ex)}))
+            continue
+        for store in SMALL_STORES:
+            o, exts = oracle(random.Random(1), prog, cb, names, store)
+            n += 1
+            ns += len(exts)
+            if o is None:
+                col = fresh_collision(prog, names)
+                if col is not None:
+                    o = {"kind": "fresh_name_collides", "name": col}
+            if o is not None:
+                key = o["kind"] + (":known" if classify_known(o, prog, store) else "")
+                if key not in failing or len(prog) < len(failing[key][0]):
+                    failing[key] = (prog, store, o)
+    return n, ns, failing
+
+
 class BuilderFailure(Exception):
     """the real CodeBuilder raised on a legal sequence of calls"""
 
@@ -623,6 +721,12 @@ def main(tier):
             terms.append(case_term(prog, built, names, store, runs, univ))
             term_idx.append(ci)
 
+    n_small, ns_small, failing_small = small_scope(rep, 2 if tier == "quick" else 3)
+    n_sched += ns_small
+    for key, v in failing_small.items():
+        if key not in failing or len(v[0]) < len(failing[key][0]):
+            failing[key] = v
+
     for key, (prog, store, o) in sorted(failing.items()):
         kf = classify_known(o, prog, store)
         if kf is not None:
@@ -670,6 +774,10 @@ def main(tier):
         rule="random builder programs (nested if_/else_, loops, subscripts, calls, yields, barriers, "
              "fresh_var_name) driven through the real CodeBuilder; non-trivial = at least 3 statements and one "
              "dependency edge; distinct by program",
+        small_scope_programs_x_stores=n_small,
+        small_scope_rule="every program of up to %d statements from 17 statement templates, each bare / under one of "
+                         "3 if_ conditions / in the else_ of the previous if_, on 2 initial stores; all linear "
+                         "extensions" % (2 if tier == "quick" else 3),
         schedules_executed_by_oracle=n_sched, traces_validated_against_impl=n_eval,
         model_impl_disagreements=len(mism),
         input_distribution={"statements_per_program": {str(k): v for k, v in sorted(sizes.items())}},
